@@ -464,6 +464,22 @@ func runC10(cfg config) {
 				sink.add(fmt.Sprintf("%s %s %s, %s", f.ctor, cq, coqZ(n), oc), src+" => "+oc, f.ctor, fmt.Sprintf("%s|%s|%d", f.ctor, c.name, n))
 			}
 		}
+		// a COMPUTED n: the argument is evaluated with the input collection as its focus (count() is the input's)
+		for _, cn := range []struct {
+			src string
+			n   int64
+		}{{"count() - 1", int64(len(c.items)) - 1}, {"count()", int64(len(c.items))}, {"count() - 2", int64(len(c.items)) - 2}, {"$this.count() - 1", int64(len(c.items)) - 1},
+			{"distinct().count() - distinct().count()", 0}, {"first().count()", int64(min(len(c.items), 1))}} {
+			for _, f := range []struct{ ctor, fmtSrc string }{{"CSkip", "%s.skip(%s)"}, {"CTake", "%s.take(%s)"}} {
+				if len(c.items) == 0 {
+					continue // an empty input is empty whatever the argument; count() on it is still 0
+				}
+				src := fmt.Sprintf(f.fmtSrc, c.name, cn.src)
+				out, err, pan, _ := eval(src)
+				oc := collOutcome(out, err, pan, c.items)
+				sink.add(fmt.Sprintf("%s %s %s, %s", f.ctor, cq, coqZ(cn.n), oc), src+" => "+oc, f.ctor, fmt.Sprintf("%s|%s|computed %s", f.ctor, c.name, cn.src))
+			}
+		}
 		// set functions against every other collection (controlled overlap through the fixtures)
 		for _, d := range colls {
 			dname := d.name
